@@ -41,9 +41,8 @@ NSHARDS = {'quick': 16, 'thorough': 32}
 CSTYLE = ['%s', '%10s', '%-9s', '%.3s', '%5.2s', 'v=%s', '%r', '%a', '%8r', '%d', '%f', '']
 CFMT_QUICK = ['s', '10s', '.3s', '5.2s', '9.9s', 'r', 'a', '12r', 'd', 'f', 'c', 'x', 'i', 'e', 'g']
 ETCS = [None, '', '..', 'ETC']
-EXPRS = ['x', "x+'a'", "'a'+x", 'x[1:]', 'x[:-1]', 'x[2:5]', 'x*1', 'x.upper()', 'x.strip()',
-         "x.replace('a','b')", 'S.capwords(x)', 'S.capwords(s=x)', '_.string.capwords(x)',
-         '_.string.upper(x)', 'x.casefold()', '_.str(x)']
+EXPRS = list(U.EXPR_MARKED)
+MULTI = '<ab<c_D<'          # several marks: first, middle, last character
 CTXS = ['kw', 'mapping', 'client', 'callable', 'taintwrapper', 'in', 'let']
 
 
@@ -87,11 +86,9 @@ class Work:
         self.ctx = ctx
         self.mon = mon
         self.cache = {}
-        self.samples = {}
 
     def case(self, **fields):
-        st = U.evaluate(self.ctx, self.mon, fields, self.cache)
-        return st
+        return U.evaluate(self.ctx, self.mon, fields, self.cache)
 
     def own(self, i):
         return i % self.ctx.nshards == self.ctx.shard
@@ -102,11 +99,11 @@ def values_for(tier, fam, mask=0):
     rich = list(range(len(U.RICH) + 1))
     if tier == 'thorough':
         if fam == 'A':
-            return [U.plain_value(p) for p in plain] + [U.rich_value(b) for b in rich]
+            return [U.plain_value(p) for p in plain] + [U.rich_value(b) for b in rich] + [MULTI]
         return [U.plain_value(mask % 7), U.rich_value(mask % 10), U.rich_value((mask + 5) % 10)]
     if fam == 'A':
         return [U.plain_value(0), U.plain_value(3 + mask % 4), U.rich_value(mask % 10),
-                U.rich_value((mask + 4) % 10)]
+                U.rich_value((mask + 4) % 10), MULTI]
     return [U.plain_value(mask % 7), U.rich_value((mask // 7) % 10)]
 
 
@@ -196,7 +193,7 @@ def family_c(w, tier):
 def family_d(w, tier):
     opts = [dict(null='N'), dict(missing='M'), dict(null='', missing='gone'), dict(url=True),
             dict(null='N', size=4), dict(missing='M', fmt='upper')]
-    for mask in masks_for(w, tier if tier == 'quick' else 'quick', 2):
+    for mask in masks_for(w, 'quick', 2):         # small subsets + seeded ones in both tiers
         mods = written(mask)
         for o in opts:
             for syntax in ('dtml', 'epfs', 'comment'):
@@ -313,13 +310,15 @@ def finish(agg):
         if not c.get(k):
             inc.append('deciding monitor never evaluated: ' + k)
     for m in U.MODS:
-        if m == 'html_quote':
-            continue        # by design skipped for marked values; reach is demanded below
+        if m in ('html_quote', 'newline_to_br'):
+            # html_quote is by design skipped for marked values (its reach is reported only);
+            # newline_to_br is decided by its own quoted() evaluations (demanded above)
+            continue
         if not c.get('stage saw tainted input: mod:' + m):
             inc.append('modifier stage never saw a marked value: ' + m)
     for r in ('Var.render', 'render_blocks_', 'thousands_commas', 'url_unquote', 'url_unquote_plus',
-              'newline_to_br', 'sql_quote', 'lower', 'upper', 'capitalize', 'spacify', 'html_quote',
-              'StringFunctionWrapper.__call__'):
+              'newline_to_br', 'sql_quote', 'lower', 'upper', 'capitalize', 'spacify',
+              'StringFunctionWrapper.__call__'):        # the anchors.mechanism list of the property
         if not c.get('reach:' + r):
             inc.append('anchor never entered: ' + r)
     for fam in 'ABCDEFG':
@@ -331,8 +330,13 @@ def finish(agg):
             inc.append('family A: only %d of %d renders produced an output to judge' % (judged, cases))
         elif judged * 5 < cases:
             inc.append('family %s: only %d of %d renders produced an output to judge' % (fam, judged, cases))
+    strobj = sorted(agg.get('tables', {}).get('observed:type of TemplateDict.string', {}))
     return {'inconclusive': inc,
             'coverage': {'exhaustive': True,
+                         'observation_string_module': 'TemplateDict.string is served by %s (DT_Util.'
+                         'StringModuleWrapper is overwritten when DocumentTemplate.security copies '
+                         'safe_builtins onto TemplateDict); the taint-aware wrapper is exercised '
+                         'through a StringModuleWrapper passed in the namespace' % strobj,
                          'modifier_subsets': U.NMASK,
                          'explanation': 'family A is exhaustive over the 4096 modifier subsets; in the '
                                         'thorough tier families B, E, F, G are too; positions, formats '
